@@ -154,7 +154,7 @@ def bool_times_display(e):
     reported separately; the generators leave the shape out"""
     def seqish(x):
         return x[0] in "TL" or (x[0] == "M" and (seqish(x[1]) or seqish(x[2])))
-    if e[0] == "M" and e[1][0] == "B" and seqish(e[2]):
+    if e[0] == "M" and e[1][0] in "BCRQ" and seqish(e[2]):      # ('==', 'or', conditional: may fold to a bool literal)
         return True
     if e[0] in "TL":
         return any(bool_times_display(x) for x in e[1])
@@ -408,7 +408,11 @@ def op_exprs(rng, quick):
         if op in ("<<", ">>", "&", "|", "^"):
             a, b = rng.choice(INTS + ["True", "False"]), rng.choice(["0", "1", "3", "7", "True", "64"] if op in ("<<", ">>") else INTS)
         elif op == "**":
-            a, b = num(d - 1), rng.choice(["0", "1", "2", "3", "-1", "0.5", "True"])
+            # (no negative exponents here: <big int literal> ** -1 is typed as a Python int although it is a float, and
+            #  the product with a float then runs the PyLong fast path on it (assertion in debug headers) -- power typing,
+            #  reported separately; 2 ** -1 is among the fixed expressions)
+            #  a float ** 0.5 differs from CPython in the last bit (C pow / sqrt: the power properties' subject)
+            a, b = num(d - 1), rng.choice(["0", "1", "2", "3", "True"])
         else:
             a, b = num(d - 1), num(d - 1)
         r = "(%s) %s (%s)" % (a, op, b)
@@ -448,7 +452,17 @@ def evaluate(text, env):
             v = eval(compile(text, "<c09>", "eval"), dict(env))
     except Exception:
         return False, None
+    def has_complex(x):
+        if isinstance(x, complex):
+            return True
+        if isinstance(x, (tuple, list, set, frozenset)):
+            return any(has_complex(y) for y in x)
+        if isinstance(x, dict):
+            return any(has_complex(k) or has_complex(y) for k, y in x.items())
+        return False
     try:
+        if has_complex(v):            # negative ** fraction: crashes the compiler (own module, see complex_fold)
+            return False, None
         if len(repr(v)) > 400:
             return False, None
     except Exception:
@@ -667,6 +681,7 @@ def run(ctx):
         for (i, nm, t), v in zip(fbody[fn], res):
             got[nm] = v
     got.update(out["globals"])
+    complex_fold(ctx, wd)
     rec = fr["rec"]
     mi = 0
     for i, (kind, st, x, t, valued) in enumerate(items):
@@ -714,6 +729,27 @@ def run(ctx):
                              g, want)
                     break
     return None
+
+
+def complex_fold(ctx, wd):
+    """a folded binary operation with a complex result ((-1) ** 0.5): module of its own, a compiler crash must not
+    hide the other cases"""
+    for k, text in enumerate(["(-1) ** 0.5", "(-8) ** (1 / 3)"]):
+        inp = {"expr": text, "module": "c09cplx%d" % k}
+        ctx.case("fold-ops/complex-result", inp, sig=("foldc", text))
+        try:
+            cybuild.build("c09cplx%d" % k, "# cython: language_level=3\ndef f():\n    return %s\n" % text, wd, cflags=["-O0"])
+        except cybuild.BuildError as e:
+            if e.stage == "cython-crash" and "could not convert string to float" in e.detail:
+                ctx.fail("complex_constant_result_crash", inp, "compiler raises ValueError (FloatNode built from a complex constant result)",
+                         "module builds; value as in CPython")
+            else:
+                ctx.corr_break("module c09cplx%d" % k, inp, str(e)[-600:], "builds")
+            continue
+        r = cybuild.call_cases(wd, [["c09cplx%d.f" % k, []]], setup="import c09cplx%d" % k)
+        want = eval(text)
+        if r[0].get("t") != "complex" or r[0].get("r") not in (repr(want), [want.real.hex(), want.imag.hex()]):
+            ctx.fail("complex_constant_result_wrong", inp, r[0], {"t": "complex", "r": repr(want)})
 
 
 def canon_of_sval(s):
